@@ -60,9 +60,22 @@ func ParseCSRResponse(signPrivateKey *sm2.PrivateKey, der []byte) (CSRResponse, 
 		signCerts[i] = signCert
 	}
 
-	// check sign public key against the private key
-	if !signPrivateKey.PublicKey.Equal(signCerts[0].PublicKey) {
+	// check sign public key against the private key. SignCerts is a SET OF: its DER encoding is sorted,
+	// so the certificate of the signing key need not come first; it is moved to the front.
+	idx := -1
+	for i, signCert := range signCerts {
+		if signPrivateKey.PublicKey.Equal(signCert.PublicKey) {
+			idx = i
+			break
+		}
+	}
+	if idx < 0 {
 		return result, errors.New("smx509: sign cert public key mismatch")
+	}
+	if idx > 0 {
+		match := signCerts[idx]
+		copy(signCerts[1:idx+1], signCerts[:idx])
+		signCerts[0] = match
 	}
 
 	var encPrivateKey *sm2.PrivateKey
